@@ -465,6 +465,8 @@ class Interp:
 
     def getattr(self, obj, name, func, depth):
         if isinstance(obj, EnumVal):
+            if name == "__class__":
+                return ClassTok(obj.cls)
             if name == "value":
                 return obj.value
             if name == "name":
@@ -476,6 +478,8 @@ class Interp:
                 return ("bound", m, obj)
             raise Uninterpretable(f"attribute {name} on enum value {obj}")
         if isinstance(obj, Obj):
+            if name == "__class__" and "__class__" not in obj.fields:
+                return ClassTok(obj.cls_name)
             if name in obj.fields:
                 return obj.fields[name]
             m = self.method(obj, name)
@@ -1751,7 +1755,30 @@ class Interp:
                 fh.extend(" ".join(self.py_str(a, depth) for a in args).split("\n"))
             return None
         if name == "hash":
-            return Opaque("hash")
+            # a real hash within this run (records hash per equality family, see Obj.__hash__); unhashable values refuse as in Python
+            def hashable(v):
+                if isinstance(v, Opaque):
+                    raise Uninterpretable("hash of an opaque value")
+                if isinstance(v, SetVal):
+                    if not v.frozen:
+                        raise Raised("TypeError", "unhashable type: 'set'")
+                    return frozenset(hashable(x) for x in v)
+                if isinstance(v, (list, dict)):
+                    raise Raised("TypeError", f"unhashable type: '{type(v).__name__}'")
+                if isinstance(v, tuple):
+                    return tuple(hashable(x) for x in v)
+                if isinstance(v, Obj):
+                    m = self.method(v, "__hash__")
+                    if m is not None:
+                        return ("Obj", v.cls_name, self.call_func(m, [], {}, v, depth + 1))
+                    return v
+                if isinstance(v, EnumVal) and (self._is_intenum(v) or self._is_strenum(v)):
+                    return v.value
+                return v
+            try:
+                return hash(hashable(args[0]))
+            except TypeError as ex:
+                raise Raised("TypeError", str(ex))
         if name == "slice":
             return slice(*args)
         if name == "getattr":
